@@ -376,8 +376,87 @@ def tell_preserved(ctx: Ctx, part: Partial):
     return out
 
 
+# ---- (D) one stream object opened several times --------------------------------------------------------------------------
+REUSE_PKGS = [("good", []), ("single+1", [(2**30 + 1, 2**30 // 100, False), (2**30, 2**30, False)]), ("entry-ratio+1", [(500 * 1000 + 1, 1000, False), (10**7, 10**7, False)]),
+              ("zero-compressed", [(1, 0, False), (10, 10, False)]), ("single-0", [(2**30, 2**30 // 100, False), (2**30, 2**30, False)])]
+REUSE_LIMITS = {"default": {}, "one-entry": {"max_entries": 1}, "tiny-total": {"max_total_uncompressed_bytes": 64}, "ratio-1": {"max_entry_compression_ratio": 1.0}}
+
+
+def judge_reuse(ext: str, steps: list[dict]):
+    """steps: [{"pkg": i, "via": "open"|"validate"|"extractor", "limits": name}] - all on ONE BytesIO object, refilled when the package changes."""
+    from sharepoint2text.parsing.exceptions import ExtractionZipBombError
+    from sharepoint2text.parsing.extractors.util.zip_bomb import ZipBombLimits, open_zipfile, validate_zip_bytesio
+    from sharepoint2text.parsing.router import get_extractor
+    base = open(os.path.join(REPO, _RES, BASES[ext]), "rb").read()
+    built = {}
+    buf = io.BytesIO()
+    current = None
+    for i, s in enumerate(steps):
+        k = s["pkg"] % len(REUSE_PKGS)
+        if k not in built:
+            built[k] = build_forged(base, REUSE_PKGS[k][1])
+        raw, entries = built[k]
+        if current != k:           # the caller reuses its buffer for the next document
+            buf.seek(0)
+            buf.truncate()
+            buf.write(raw)
+            current = k
+        buf.seek(0)
+        limname = "default" if s["via"] == "extractor" else s["limits"]
+        lim = dict(DEF, **REUSE_LIMITS[limname])
+        want, why = reference(entries, lim)
+        try:
+            if s["via"] == "open":
+                open_zipfile(buf, limits=ZipBombLimits(**lim), source="vf").close()
+            elif s["via"] == "validate":
+                validate_zip_bytesio(buf, limits=ZipBombLimits(**lim), source="vf")
+            else:
+                for r in get_extractor("x." + ext)(buf, "x." + ext):
+                    r.get_full_text()
+            got = False
+        except ExtractionZipBombError:
+            got = True
+        except Exception as e:  # noqa
+            if s["via"] != "extractor":
+                return [("guard-raises-other", f"step {i} ({REUSE_PKGS[k][0]} via {s['via']}, limits {limname}): {type(e).__name__}: {e}")]
+            got = False       # forged members make the document unreadable for other reasons; only the bomb verdict is judged here
+        if buf.getvalue() != raw:
+            return [("stream-position", f"step {i}: the caller's buffer was modified")]
+        if want is not None and got != want:
+            hist = [(REUSE_PKGS[x["pkg"] % len(REUSE_PKGS)][0], x["via"], x["limits"]) for x in steps[:i + 1]]
+            return [("exact-decision", f".{ext} step {i}: guard {'rejects' if got else 'accepts'}, reference {'rejects (' + why + ')' if want else 'accepts'}; one stream object, history {hist}")]
+    return []
+
+
+def reuse_shard(ctx: Ctx):
+    part = Partial()
+    exts = ["docx", "odt", "epub", "xlsx", "odp"]
+    step = st.fixed_dictionaries({"pkg": st.integers(0, len(REUSE_PKGS) - 1), "via": st.sampled_from(["open", "validate", "extractor"]), "limits": st.sampled_from(sorted(REUSE_LIMITS))})
+    cases = st.fixed_dictionaries({"ext": st.sampled_from(exts), "steps": st.lists(step, min_size=2, max_size=6)})
+
+    def ev(case):
+        fails = judge_reuse(case["ext"], case["steps"])
+        verdicts = {reference(build_forged_cached(case["ext"], s["pkg"])[1], dict(DEF, **REUSE_LIMITS["default" if s["via"] == "extractor" else s["limits"]]))[0] for s in case["steps"]}
+        part.case(digest(["reuse", case]), len(verdicts - {None}) == 2, sample={"ext": case["ext"], "steps": [(REUSE_PKGS[s["pkg"]][0], s["via"], s["limits"]) for s in case["steps"]]} if part.evaluations % 37 == 0 else None, leg="reuse")
+        return _viol(fails, {"kind": "zipreuse", "ext": case["ext"], "steps": case["steps"]})
+    hyp_search(ctx, "reuse", cases, ev, ctx.n(150, 3000), part)
+    return part
+
+
+_FORGED_CACHE: dict = {}
+
+
+def build_forged_cached(ext, k):
+    k %= len(REUSE_PKGS)
+    if (ext, k) not in _FORGED_CACHE:
+        base = open(os.path.join(REPO, _RES, BASES[ext]), "rb").read()
+        _FORGED_CACHE[(ext, k)] = build_forged(base, REUSE_PKGS[k][1])
+    return _FORGED_CACHE[(ext, k)]
+
+
 def run(ctx: Ctx) -> Partial:
     part = Partial()
+    part.merge(shard_map(ctx, "vf.props.c11", "reuse_shard", 2))
     part.violations += lattice(part)
     part.violations += tell_preserved(ctx, part)
     part.merge(shard_map(ctx, "vf.props.c11", "random_shard", 4))
@@ -386,6 +465,8 @@ def run(ctx: Ctx) -> Partial:
 
 
 def replay(ctx: Ctx, payload: dict):
+    if payload.get("kind") == "zipreuse":
+        return _viol(judge_reuse(payload["ext"], payload["steps"]), payload)
     if payload.get("kind") == "zippackage":
         base = open(os.path.join(REPO, _RES, BASES[payload["ext"]]), "rb").read()
         raw, entries = build_forged(base, [tuple(d) for d in payload["dummies"]], payload.get("pad", 0))
